@@ -31,6 +31,9 @@ type ClusterCheck struct {
 	AlsoProps   []string // violations of these monitor ids count for this property too
 	Assumptions []string
 	Extra       func(cov map[string]interface{}, agg *Agg)
+	// Pre runs before the phases (another engine's part of the check): its violations (already carrying the
+	// property id and final key) and coverage entries are added to the report
+	Pre func(deadline time.Time) ([]ev.Violation, map[string]interface{})
 }
 
 // Agg aggregates worker results.
@@ -63,6 +66,11 @@ func runCluster(cc ClusterCheck) int {
 	completed := []string{}
 	exhaustive := true
 	phaseStats := []map[string]interface{}{}
+	var preViol []ev.Violation
+	var preCov map[string]interface{}
+	if cc.Pre != nil {
+		preViol, preCov = cc.Pre(deadline)
+	}
 	for _, ph := range cc.Phases {
 		if time.Now().After(deadline) {
 			exhaustive = false
@@ -145,6 +153,7 @@ func runCluster(cc ClusterCheck) int {
 		v.Property = cc.Prop
 		rep.Violations = append(rep.Violations, v)
 	}
+	rep.Violations = append(rep.Violations, preViol...)
 	sort.SliceStable(rep.Violations, func(i, j int) bool {
 		return traceLen(rep.Violations[i]) < traceLen(rep.Violations[j])
 	})
@@ -170,6 +179,9 @@ func runCluster(cc ClusterCheck) int {
 	cov["explanation"] = "every execution is a run of the real Node/core/Hashgraph code under the harness scheduler; there is no abstract model, so traces_validated_against_impl = executions"
 	if cc.Extra != nil {
 		cc.Extra(cov, agg)
+	}
+	for k, v := range preCov {
+		cov[k] = v
 	}
 	rep.Assumptions = append([]string{
 		"harness transport delivers RPCs synchronously (real processRPC inline); interleavings inside a node are limited to its lock-release points",
